@@ -46,7 +46,7 @@ func DefaultProfile() *Profile {
 		StoreEvery: 1, PoolEvery: 1, LockEvery: 1, StatsEvery: 7, MapGetEvery: 5,
 		MinOps: 20, MaxOps: 300, MaxEntities: 120, Observers: true,
 		CbActions:   []int{CbNothing, CbRead, CbQuery, CbWritePtr, CbGC, CbStructural, CbUnregSelf, CbUnregOther, CbRegNew, CbSet, CbEmit, CbStats, CbOtherWorld},
-		MisuseKinds: []string{"stale", "dup_add", "missing_remove", "empty_list", "missing_target", "dead_target", "query_dead_target", "query_foreign_relation", "obs_invalid", "batch", "missing_target_chain", "obs_locked_register"},
+		MisuseKinds: []string{"stale", "dup_add", "missing_remove", "empty_list", "missing_target", "dead_target", "query_dead_target", "query_foreign_relation", "obs_invalid", "batch", "missing_target_chain", "obs_locked_register", "nonrel_target"},
 	}
 }
 
